@@ -350,28 +350,23 @@ struct FitCtx {
   std::vector<std::pair<long, int>> layout;  // (position, pad length before) per instruction
 };
 
-static bool fit_dfs(FitCtx &f, size_t i, long p) {
+// Depth-first search over the padding choices, iterative (programs have tens of thousands of lines).
+// For instruction i at position p the admissible placements are, in order of preference:
+//   it fits (L <= free):                exactly at p, no padding allowed
+//   it would cross / is >= the chunk:   unpadded at p if L >= c; then after P bytes of NOPs, the library's
+//                                       choice P = free first, then every other prefix of the NOP chain at p
+static void fit_options(FitCtx &f, size_t i, long p, std::vector<std::pair<long, int>> &out) {
   AsmCheck &k = *f.k;
-  if (++f.steps > 400000) return false;
-  if (i == f.encs.size()) return p == k.off_after;
+  out.clear();
   const Enc &E = *f.encs[i];
   long L = E.len, c = k.c;
   long fre = c - p % c;
   auto match_at = [&](long q) { return q + L <= k.buf_cap && !memcmp(k.buf + q, E.bytes, L); };
   if (L <= fre) {
-    if (!match_at(p)) return false;
-    f.layout.emplace_back(p, 0);
-    if (fit_dfs(f, i + 1, p + L)) return true;
-    f.layout.pop_back();
-    return false;
+    if (match_at(p)) out.emplace_back(p, 0);
+    return;
   }
-  // the instruction would cross (or is at least as long as the chunk)
-  if (L >= c && match_at(p)) {
-    f.layout.emplace_back(p, 0);
-    if (fit_dfs(f, i + 1, p + L)) return true;
-    f.layout.pop_back();
-  }
-  // candidates: prefix sums of the (unique) NOP chain starting at p; the library's choice first
+  if (L >= c && match_at(p)) out.emplace_back(p, 0);
   long cand[64];
   int nc = 0;
   long q = p;
@@ -381,19 +376,64 @@ static bool fit_dfs(FitCtx &f, size_t i, long p) {
     q += l;
     cand[nc++] = q - p;
   }
-  for (int pass = 0; pass < 2; pass++) {
+  for (int pass = 0; pass < 2; pass++)
     for (int ci = 0; ci < nc; ci++) {
       long P = cand[ci];
       if ((pass == 0) != (P == fre)) continue;
       long at = p + P;
       if (!match_at(at)) continue;
       if (L < c && L > c - at % c) continue;  // must now lie inside one chunk
-      f.layout.emplace_back(at, (int)P);
-      if (fit_dfs(f, i + 1, at + L)) return true;
-      f.layout.pop_back();
+      out.emplace_back(at, (int)P);
+    }
+}
+
+static bool fit_dfs(FitCtx &f, size_t i0, long p0) {
+  AsmCheck &k = *f.k;
+  struct Choice {
+    size_t i;
+    std::vector<std::pair<long, int>> opts;
+    size_t next;
+  };
+  std::vector<Choice> stack;
+  std::vector<std::pair<long, int>> opts;
+  size_t i = i0;
+  long p = p0;
+  for (;;) {
+    bool dead = false;
+    if (++f.steps > 2000000) return false;
+    if (i == f.encs.size()) {
+      if (p == k.off_after) return true;
+      dead = true;
+    } else {
+      fit_options(f, i, p, opts);
+      if (opts.empty())
+        dead = true;
+      else {
+        f.layout.emplace_back(opts[0]);
+        p = opts[0].first + f.encs[i]->len;
+        if (opts.size() > 1) stack.push_back(Choice{i, opts, 1});
+        i++;
+      }
+    }
+    if (dead) {
+      // back to the most recent instruction that still has an untried placement
+      bool resumed = false;
+      while (!stack.empty()) {
+        Choice &c = stack.back();
+        if (c.next < c.opts.size()) {
+          f.layout.resize(c.i);
+          f.layout.emplace_back(c.opts[c.next]);
+          p = c.opts[c.next].first + f.encs[c.i]->len;
+          c.next++;
+          i = c.i + 1;
+          resumed = true;
+          break;
+        }
+        stack.pop_back();
+      }
+      if (!resumed) return false;
     }
   }
-  return false;
 }
 
 int walk_expect(const InstModel &m, const std::vector<std::string> &lines, int mode, long c, long start, long *end, int *n_instr,
